@@ -167,7 +167,7 @@ class GrainCornerDescription(NucleationDescriptionBase):
     def _gbRemoval(self, gbk):
         K = self.K(gbk)
         phi = self.phi(gbk)
-        return 3*(2*phi*(1 - gbk**2) - K*(np.sqrt(1 - gbk**2 - K**2 / 4) - K**2 / np.sqrt(8)))
+        return 3*(2*phi*(1 - gbk**2) - K*(np.sqrt(1 - gbk**2 - K**2 / 4) - K / np.sqrt(8)))
     
     def _areaFactor(self, gbk):
         phi = self.phi(gbk)
@@ -178,7 +178,7 @@ class GrainCornerDescription(NucleationDescriptionBase):
         K = self.K(gbk)
         phi = self.phi(gbk)
         delta = self.delta(gbk)
-        return 2*(4*(np.pi/3 - delta) + gbk*K*(np.sqrt(1 - gbk**2 - K**2 / 4) - K**2 / np.sqrt(8)) - 2*gbk*phi*(3 - gbk**2))
+        return 2*(4*(np.pi/3 - delta) + gbk*K*(np.sqrt(1 - gbk**2 - K**2 / 4) - K / np.sqrt(8)) - 2*gbk*phi*(3 - gbk**2))
 
 class NucleationBarrierParameters:
     '''
